@@ -126,7 +126,7 @@ _e(LN, "recursion", "crate::wrap_algorithms::optimal_fit::LineNumbers::get", ["A
 OF = "crate::wrap_algorithms::optimal_fit::wrap_optimal_fit"
 _e(OF, "extern:smawk::online_column_minima", "smawk::online_column_minima", ["A-smawk"],
    "size = widths.len() >= 1; behaviour on non-finite matrices is a U-clause of C04")
-_e(OF, "call:Index::index", "smawk::online_column_minima(0.0,Vec::len(phi:Vec),closure{crate::wrap_algorithms::optimal_fit::LineNumbers::new(_),$2,Option::unwrap_or(_,_),phi:Vec,$1,$3}),phi:usize", ["A-smawk", "C06.R3"],
+_e(OF, "call:Index::index", "smawk::online_column_minima(0.0,Vec::len(phi:Vec),closure{$1,$2,$3,Option::unwrap_or(_,_),crate::wrap_algorithms::optimal_fit::LineNumbers::new(_),phi:Vec}),phi:usize", ["A-smawk", "C06.R3"],
    "pos starts at fragments.len() = minima.len() - 1 and only decreases")
 _e(OF, "call:Index::index", "$1,Range{start:{Index::index(smawk::online_column_minima(_,_,_),phi:usize).0},end:{phi:usize}}", ["A-smawk", "C06.R3"],
    "prev = minima[pos].0 < pos <= fragments.len()")
